@@ -426,11 +426,29 @@ func c06WRRUpdates(c *lab.Ctx) {
 		var hist []string
 		for si := 0; si < 4+rng.Intn(5); si++ {
 			var hs []v2.Host
-			op := rng.Intn(4)
+			op := rng.Intn(5)
 			if si == 0 {
 				op = 0
 			}
+			if op == 4 && len(order) < 2 {
+				op = 0
+			}
 			switch op {
+			case 4: // the same members are pushed again with their weights moved between them (same multiset, same total)
+				k := 1 + rng.Intn(len(order)-1)
+				old := map[int]uint32{}
+				for _, i := range order {
+					old[i] = weights[i]
+				}
+				for j, i := range order {
+					w := old[order[(j+k)%len(order)]]
+					weights[i] = w
+					hs = append(hs, v2.Host{HostConfig: v2.HostConfig{Address: addr(i), Hostname: addr(i), Weight: w}})
+				}
+				if err := cm.UpdateClusterHosts(name, hs); err != nil {
+					c.Inconclusive("UpdateClusterHosts: " + err.Error())
+				}
+				hist = append(hist, fmt.Sprintf("rotate%v", hs2w(hs)))
 			case 0: // replace by 2..6 hosts
 				weights, order = map[int]uint32{}, nil
 				for _, i := range rng.Perm(8)[:2+rng.Intn(5)] {
